@@ -166,6 +166,7 @@ func runC10(c *Ctx) {
 	c.rule("R-YIELD", 4, "Stack.Each, List.Each, Queue.Each, ring.scan/Each stop after f returned false")
 	ruleNoopGuard(c, "ring")
 	ruleWrapChecked(c)
+	ruleSizeGuard(c, "stack", "mlink", "ring")
 	c.rule("R-LEN-EFFECT", 3, "every path through a Stack method that rewrites the list leaves its length at L0+1 (Push, Add), L0−1 (Pop), 0 (Clear) or unchanged")
 	if lf := firstSliceField(P, "stack", "Stack"); lf != nil {
 		ruleLenEffect(c, "R-LEN-EFFECT", "stack", "Stack", lf, map[string]lform{
@@ -361,6 +362,30 @@ func runC10(c *Ctx) {
 		})
 	}
 
+	// ---- the invalidator walks the whole detached chain: a loop that follows the link until nil, marking
+	// each entry (marking only the first leaves cursors further down the chain working)
+	{
+		c.sawFn(fnName(m.inval))
+		loops := false
+		for _, b := range m.inval.Blocks {
+			for _, in := range b.Instrs {
+				ph, ok := in.(*ssa.Phi)
+				if !ok {
+					break
+				}
+				for i, e := range ph.Edges {
+					if !b.Dominates(b.Preds[i]) {
+						continue
+					}
+					// back edge carries the old link of the entry being marked
+					if _, f := loadedField(e); f != nil && sameField(f, m.linkF) {
+						loops = true
+					}
+				}
+			}
+		}
+		c.judge(loops, "R-DETACH-INVALIDATE", "mlink.(*entry).invalidate:walks the chain", m.inval.Pos(), "a loop advancing along the link marks every entry", "the invalidator does not loop along the chain it is given: only its first entry is marked, so cursors on later detached entries keep working on a dead chain instead of panicking")
+	}
 	// ---- R-TAIL-RESET and R-SIZE-PAIR (mlink.Queue)
 	queueT := P.Named("mlink", "Queue")
 	backF, sizeF, listF := P.Field("mlink", "Queue", "back"), P.Field("mlink", "Queue", "size"), P.Field("mlink", "Queue", "list")
